@@ -13,7 +13,7 @@ import (
 func init() {
 	Drivers["C12"] = driveC12
 	Levels["C12"] = "exploration"
-	Rules["C12"] = "one run = one array (length 0-8, elements of every JSON type in mixed Go representations: float64/int/int8/uint/float32/json.Number spellings, inside []any and map[string]any containers built in different insertion orders) with or without a planted duplicate at a chosen pair of positions that is equal but not identical, checked against {uniqueItems:true}; or one enum / const schema against an instance; each validated under 8 (quick) / 24 (thorough) configurations of hash seed x collision mask {64,2,1,0 bits} x map order. Oracles: the verdict equals the pairwise definition computed with the public Equal, identically in every configuration; and, through the generated hashValue helper, Equal(x,y) implies equal digests under the same seed with independent map orders for x and y. Non-trivial = a planted duplicate whose members differ in Go representation in an array of length >=3, or a masked configuration in which >=2 unequal items shared a bucket. Distinct = hash(values with their Go types, schema kind) x (seed, mask, order) vector."
+	Rules["C12"] = "one run = one array (length 0-8, a quarter of them 9-24, elements of every JSON type in mixed Go representations: float64/int/int8/uint/float32/json.Number spellings, inside []any and map[string]any containers built in different insertion orders) with or without a planted duplicate at a chosen pair of positions that is equal but not identical, checked against {uniqueItems:true}; or one enum / const schema against an instance; each validated under 8 (quick) / 24 (thorough) configurations of hash seed x collision mask {64,2,1,0 bits} x map order. Oracles: the verdict equals the pairwise definition computed with the public Equal, identically in every configuration; and, through the generated hashValue helper, Equal(x,y) implies equal digests under the same seed with independent map orders for x and y. Non-trivial = a planted duplicate whose members differ in Go representation in an array of length >=3, or a masked configuration in which >=2 unequal items shared a bucket. Distinct = hash(values with their Go types, schema kind) x (seed, mask, order) vector."
 	Assumptions["C12"] = append([]string{
 		"Equal is used as the definition of JSON equality, as the property's text does (that Equal itself is right is C11, not claimed); values behind pointers and typed containers ([]int, map[string]int) are not generated: Equal(&x, x) and Equal([]int{1}, []any{1.0}) are false (Equal does not look through an interface on one side only), which is a C11/C08 matter outside this check",
 		"with -tags purego hash/maphash is a pure function of the seed value, so a seed is a replayable decision; masking Sum64 to 2, 1 or 0 bits forces the collision path, which has probability 2^-64 per pair otherwise",
@@ -101,6 +101,9 @@ func driveC12(c *Ctx) {
 	switch mode {
 	case 0, 1:
 		n := c.W(9)
+		if c.W(4) == 0 {
+			n = 9 + c.W(16) // long arrays: implementations may switch strategy with size
+		}
 		items = make([]any, n)
 		for i := range items {
 			items[i] = GenValue(c, 2)
@@ -233,6 +236,8 @@ func driveC12(c *Ctx) {
 			oracle := "C12/definition"
 			if ci > 0 {
 				oracle = "C12/seed-independence"
+				// the same call gave another verdict under another hash seed / collision pattern / map order
+				c.Fail("C14/hash-seed-independence", kind, "configuration %d (mask %d bits, order %s): %s verdict valid=%v differs from configuration 0 for the same schema and instance %s", ci, mask, policyName(policy), kind, verr == nil, typedJSON(inst))
 			}
 			c.Fail(oracle, kind, "configuration %d (mask %d bits, order %s): %s over %q (instance %s): valid=%v, pairwise Equal says %v (equal pairs %v); error: %v",
 				ci, mask, policyName(policy), kind, typed, typedJSON(inst), verr == nil, want, eqPairs, verr)
